@@ -5,8 +5,10 @@ mod c02;
 mod c03;
 mod c04;
 mod c05;
+mod c06;
 mod c13;
 mod common;
+mod e3;
 mod fmt06;
 mod hist;
 mod hook;
@@ -50,6 +52,13 @@ fn main() {
             "crash" => c03::replay(case),
             "fault" => c04::replay(case),
             "delete" => c05::replay(case),
+            "e3" => match case["check"].as_str().unwrap_or("") {
+                "C06" => c06::replay(case),
+                r => {
+                    eprintln!("unknown e3 check {r:?}");
+                    std::process::exit(2);
+                }
+            },
             "hist" => match case["rider"].as_str().unwrap_or("") {
                 "C02" => c02::replay(case),
                 r => {
@@ -80,6 +89,7 @@ fn main() {
         "C03" => c03::run(&report, &budget),
         "C04" => c04::run(&report, &budget),
         "C05" => c05::run(&report, &budget),
+        "C06" => c06::run(&report, &budget),
         _ => {
             eprintln!("unknown property {id}");
             std::process::exit(2);
